@@ -1,5 +1,6 @@
 """C15 - torch.* dispatch on operators matches the methods, in either argument order."""
 import inspect
+import warnings
 
 import torch
 
@@ -286,4 +287,49 @@ def run_negative(case):
                 subs.append(result(VIOL, kind="mis-dispatch", exc=got.type, msg=f"{fname}(op): {got.msg} @ {got.where()}", feat=feat, keys=[key]))
         else:
             subs.append(result(VIOL, kind="no-error", msg=f"{fname}(op) returned {type(got).__name__} instead of raising NotImplementedError", feat=feat, keys=[key]))
+    # ---- every binary torch function, operator first and operator second: refuse, or agree with the dense computation -------------
+    dense = built[0].dense
+    Tn = dense + 2.0 + torch.arange(dense.shape[-1], dtype=dense.dtype)  # same shape, no zeros
+    for f in sorted(overrides, key=lambda f: (getattr(f, "__module__", "") or "", getattr(f, "__name__", repr(f)))):
+        fname = f"{getattr(f, '__module__', None) or type(f).__name__}.{getattr(f, '__name__', repr(f))}"
+        if not fname.startswith("torch.") or "Tensor" in fname or getattr(f, "__name__", "").endswith("_"):
+            continue
+        try:
+            sig = inspect.signature(overrides[f])
+        except (TypeError, ValueError):
+            continue
+        req = [p for p in sig.parameters.values() if p.default is p.empty and p.kind in (p.POSITIONAL_ONLY, p.POSITIONAL_OR_KEYWORD)]
+        if len(req) != 2:
+            continue
+        for order, impl_args, ref_args in (("first", (op, Tn), (dense, Tn)), ("second", (Tn, op), (Tn, dense))):
+            feat = {"name": name, "f": fname, "order": "bin-" + order, "kind": "sweep"}
+            key = f"bin|{name}|{fname}|{order}"
+            with warnings.catch_warnings():
+                warnings.simplefilter("ignore")
+                got = call(f, *impl_args)
+                if isinstance(got, Raised):
+                    if got.type in ("NotImplementedError", "TypeError") or not any(fr[0].startswith(env.LO_DIR) for fr in got.frames):
+                        subs.append(result(OK, feat=feat, keys=[key], nontrivial=False))  # refused
+                    elif got.type in ("NotPSDError", "NanError") or is_explicit_unsupported(got, r".*"):
+                        subs.append(result(UNSUP, exc=got.type, msg=got.msg, feat=feat, keys=[key], nontrivial=False))  # outside the function's domain
+                    else:
+                        ref = call(f, *ref_args)
+                        if isinstance(ref, Raised):
+                            subs.append(result(OOD, feat=feat, keys=[key], msg=f"torch refuses as well: {ref.type}"))
+                        else:
+                            subs.append(result(VIOL, kind="mis-dispatch", exc=got.type, msg=f"{fname}[{order}]: {got.msg} @ {got.where()}", feat=feat, keys=[key]))
+                    continue
+                ref = call(f, *ref_args)
+            if isinstance(ref, Raised):
+                subs.append(result(OOD, feat=feat, keys=[key], msg=f"library answers where torch refuses: {ref.type}: {ref.msg[:60]}"))
+                continue
+            gd = got.to_dense() if hasattr(got, "to_dense") else got
+            if not (torch.is_tensor(gd) and torch.is_tensor(ref)):
+                subs.append(result(OOD, feat=feat, keys=[key], msg="non-tensor result"))
+                continue
+            if tuple(gd.shape) != tuple(ref.shape) or not torch.allclose(gd.to(torch.float64), ref.to(torch.float64), rtol=1e-6, atol=1e-8, equal_nan=True):
+                d = (gd.to(torch.float64) - ref.to(torch.float64)).abs().max().item() if tuple(gd.shape) == tuple(ref.shape) else float("nan")
+                subs.append(result(VIOL, kind="value", msg=f"{fname}[operator {order}] differs from the dense computation (shape {tuple(gd.shape)} vs {tuple(ref.shape)}, max diff {d:.3g})", feat=feat, keys=[key]))
+            else:
+                subs.append(result(OK, feat=feat, keys=[key]))
     return result(sub=subs, trans=len(subs) + 1)
